@@ -220,9 +220,17 @@ def sec_unit_length(ctx, nd):
             e = vg.ExpectedUnitLengthVectors(d, rng=np.random.RandomState(seed))
             e2 = vg.ExpectedUnitLengthVectors(d, rng=np.random.RandomState(seed))
             twin = np.random.RandomState(seed)
+            g3 = vg.UnitLengthVectors(d, rng=np.random.RandomState(seed))
+            e3 = vg.ExpectedUnitLengthVectors(d, rng=np.random.RandomState(seed))
             for t in range(T):
                 draw = twin.randn(d)
                 v, v2, w, w2 = next(g), next(g2), next(e), next(e2)
+                # the generators' `.next()` method (where a class offers it) is another spelling of the same draw
+                for gen3, ref, gname in ((g3, v, "UnitLengthVectors"), (e3, w, "ExpectedUnitLengthVectors")):
+                    x3 = gen3.next() if (t % 2 == 0 and hasattr(gen3, "next")) else next(gen3)
+                    if not np.array_equal(x3, ref):
+                        ctx.fail({"gen": gname, "d": d, "seed": seed, "request": t, "drawn_with": ".next()" if t % 2 == 0 else "next()"},
+                                 [float(z) for z in x3][:6], [float(z) for z in ref][:6], where="next-method-differs")
                 case = {"gen": "UnitLengthVectors", "d": d, "seed": seed, "request": t}
                 ctx.count(f"unitlength {d} {seed} {t}", nontrivial=d >= 2, branch="unit-length")
                 res = gram_residual([v])
